@@ -33,6 +33,8 @@ func (g *GcsEmu) makeBucketListResults(ctx context.Context, baseUrl HttpBaseUrl,
 
 	moreResults := false
 	count := 0
+	// The last name accounted for on this page: an item, or a name that was collapsed into a prefix.
+	lastName := ""
 	err := g.store.Walk(ctx, bucket, func(ctx context.Context, filename string, fInfo os.FileInfo) error {
 		dbgWalk("walk: %s", filename)
 
@@ -65,12 +67,7 @@ func (g *GcsEmu) makeBucketListResults(ctx context.Context, baseUrl HttpBaseUrl,
 			return nil
 		}
 
-		if count >= maxResults {
-			moreResults = true
-			return errAbort
-		}
-		count++
-
+		itemPrefix := ""
 		if delimiter != "" {
 			// See if the filename (beyond the prefix) contains delimiter, if it does, don't record the item,
 			// instead record the prefix (including the delimiter).
@@ -78,13 +75,30 @@ func (g *GcsEmu) makeBucketListResults(ctx context.Context, baseUrl HttpBaseUrl,
 			delimiterPos := strings.Index(withoutPrefix, delimiter)
 			if delimiterPos >= 0 {
 				// Got a hit, reconstruct the item's prefix, including the trailing delimiter
-				itemPrefix := filename[:len(prefix)+delimiterPos+len(delimiter)]
-				if !seenPrefixes[itemPrefix] {
-					seenPrefixes[itemPrefix] = true
-					prefixes = append(prefixes, itemPrefix)
+				itemPrefix = filename[:len(prefix)+delimiterPos+len(delimiter)]
+				if seenPrefixes[itemPrefix] {
+					// Already reported on this page; a collapsed name does not count as a result of its own.
+					lastName = filename
+					return nil
 				}
-				return nil
+				if cursor != "" && strings.HasPrefix(cursor, itemPrefix) {
+					// Already reported on an earlier page: the cursor is a name that was collapsed into it.
+					return nil
+				}
 			}
+		}
+
+		if count >= maxResults {
+			moreResults = true
+			return errAbort
+		}
+		count++
+		lastName = filename
+
+		if itemPrefix != "" {
+			seenPrefixes[itemPrefix] = true
+			prefixes = append(prefixes, itemPrefix)
+			return nil
 		}
 
 		found = append(found, item{
@@ -112,20 +126,27 @@ func (g *GcsEmu) makeBucketListResults(ctx context.Context, baseUrl HttpBaseUrl,
 
 	// Resolve the found items.
 	var items []*storage.Object
+	resolvedAll := true
 	for _, item := range found {
 		if obj, err := g.store.ReadMeta(baseUrl, bucket, item.filename, item.fInfo); err != nil {
 			// return our partial results + the cursor so that the client can retry from this point
 			g.log(nil, "failed to resolve: %s", item.filename)
+			resolvedAll = false
 			break
 		} else {
 			items = append(items, obj)
 		}
 	}
 
+	// The next page continues after the last name this page accounted for. That may be a name that was
+	// collapsed into a prefix, so a page holding only prefixes still hands out a token.
 	var nextPageToken = ""
-	if moreResults && len(items) > 0 {
-		lastItemName := items[len(items)-1].Name
-		nextPageToken = gcsutil.EncodePageToken(lastItemName)
+	if !resolvedAll {
+		if moreResults && len(items) > 0 {
+			nextPageToken = gcsutil.EncodePageToken(items[len(items)-1].Name)
+		}
+	} else if moreResults && lastName != "" {
+		nextPageToken = gcsutil.EncodePageToken(lastName)
 	}
 
 	rsp := storage.Objects{
